@@ -395,6 +395,29 @@ func init() {
 			}
 		}
 		if ctx.Replay != nil {
+			var sp struct {
+				Stream   string `json:"stream"`
+				Children int    `json:"children"`
+				Bad      int    `json:"panicking_child"`
+				Gauge    bool   `json:"gauge"`
+				Cached   bool   `json:"cached"`
+				Flushes  int    `json:"flushes"`
+				Held     int    `json:"held_in_child"`
+			}
+			if json.Unmarshal(ctx.Replay, &sp) == nil && sp.Stream != "" {
+				ctx.Case(sp, "", sp.Stream, "")
+				switch sp.Stream {
+				case "child-panics-then-more-calls":
+					if f := c19AfterPanic(sp.Children, sp.Bad, sp.Gauge); f != "" {
+						ctx.Fail("every_child_sees_every_call_once_in_order", f, sp, nil)
+					}
+				case "overlapping-flush":
+					if got, f := c19Overlap(sp.Cached, sp.Children, sp.Flushes, sp.Held); f != "" {
+						ctx.Fail("every_flush_reaches_every_child_once", f, sp, got)
+					}
+				}
+				return
+			}
 			var c c19Case
 			if err := json.Unmarshal(ctx.Replay, &c); err != nil {
 				fatal(err)
@@ -413,6 +436,15 @@ func init() {
 			c := c19Gen(ctx.R, i)
 			one(&c)
 		}
+		// a child panics in an allocation, the caller recovers, the multi reporter is used further
+		for k := 0; k < 12; k++ {
+			nk, bad, gauge := 1+k%4, (k/2)%(1+k%4), k%2 == 1
+			cs := map[string]interface{}{"stream": "child-panics-then-more-calls", "children": nk, "panicking_child": bad, "gauge": gauge}
+			ctx.Case(cs, "", "child-panics-then-more-calls", "")
+			if f := c19AfterPanic(nk, bad, gauge); f != "" {
+				ctx.Fail("every_child_sees_every_call_once_in_order", f, cs, nil)
+			}
+		}
 		// "every flush results in exactly one call on each child" also when flushes overlap: the first
 		// Flush is held inside a child while further goroutines flush; every child must have been
 		// flushed once per Flush call when all have returned (direct predicate; counts only)
@@ -429,6 +461,81 @@ func init() {
 			}
 		}
 	}
+}
+
+// c19PanicChild: a child that panics in one allocation (as a reporter with a panicking error callback
+// does); the caller recovers and goes on: every later call must still reach every child once, in order
+type c19Panicky struct {
+	*RecCached
+	on string
+}
+
+func (p *c19Panicky) AllocateCounter(name string, tags map[string]string) tally.CachedCount {
+	if name == p.on {
+		panic("child refuses " + name)
+	}
+	return p.RecCached.AllocateCounter(name, tags)
+}
+func (p *c19Panicky) AllocateGauge(name string, tags map[string]string) tally.CachedGauge {
+	if name == p.on {
+		panic("child refuses " + name)
+	}
+	return p.RecCached.AllocateGauge(name, tags)
+}
+
+func c19AfterPanic(nk, bad int, gauge bool) string {
+	log := &Log{}
+	kids := make([]tally.CachedStatsReporter, nk)
+	for i := range kids {
+		rc := &RecCached{L: log, Src: i, Caps: caps{true, true}}
+		if i == bad {
+			kids[i] = &c19Panicky{RecCached: rc, on: "boom"}
+		} else {
+			kids[i] = rc
+		}
+	}
+	m := multi.NewMultiCachedReporter(kids...)
+	func() {
+		defer func() { recover() }()
+		if gauge {
+			m.AllocateGauge("boom", nil)
+		} else {
+			m.AllocateCounter("boom", nil)
+		}
+	}()
+	before := log.Len()
+	var wg sync.WaitGroup
+	wg.Add(1)
+	go func() {
+		defer wg.Done()
+		m.AllocateCounter("c", map[string]string{"a": "b"}).ReportCount(3)
+		m.AllocateGauge("g", nil).ReportGauge(1.5)
+		m.AllocateTimer("t", nil).ReportTimer(time.Second)
+		m.AllocateHistogram("h", nil, tally.ValueBuckets{1}).ValueBucket(0, 1).ReportSamples(2)
+		m.Flush()
+	}()
+	if dl := waitOrDeadlock(&wg, "tally/v4/multi."); dl != "" {
+		return fmt.Sprintf("after child %d of %d panicked in an allocation (the caller recovered), later calls on the multi reporter hang: %s", bad, nk, dl)
+	}
+	evs := log.Snapshot()[before:]
+	// 10 calls per child: 4 allocations, 4 reports, 1 bucket, 1 flush
+	per := make([]int, nk)
+	for _, e := range evs {
+		per[e.Src]++
+	}
+	for i, n := range per {
+		if n != 10 {
+			return fmt.Sprintf("after child %d of %d panicked in an allocation (the caller recovered), 10 later calls on the multi reporter reached child %d %d times", bad, nk, i, n)
+		}
+	}
+	for j := 0; j+nk <= len(evs); j += nk {
+		for i := 0; i < nk; i++ {
+			if evs[j+i].Src != i || evs[j+i].K != evs[j].K {
+				return fmt.Sprintf("after a child panicked: later call %d did not reach the children in the order they were given", j/nk)
+			}
+		}
+	}
+	return ""
 }
 
 // gate: a child whose first Flush blocks until released
